@@ -124,3 +124,17 @@ pub fn docs_differ(a: &mut AutoCommit, b: &mut AutoCommit) -> Option<String> {
     }
     crate::obs::first_diff(&oa.snap, &ob.snap).map(|d| format!("state differs {d}"))
 }
+
+/// the changes held in the pending (out-of-order) queue: the extra chunks that
+/// save{retain_orphans:true} writes after the document chunk
+pub fn queued_changes(d: &mut AutoCommit) -> Vec<Change> {
+    let with = d.save_with_options(automerge::SaveOptions { deflate: false, retain_orphans: true });
+    let (chunks, _) = crate::chunks::parse_chunks(&with);
+    let mut out = vec![];
+    for c in chunks.iter().skip(1) {
+        if let Ok(ch) = Change::from_bytes(with[c.start..c.end].to_vec()) {
+            out.push(ch);
+        }
+    }
+    out
+}
